@@ -1,5 +1,105 @@
-"""Checker self-validation (thorough tier). Filled in later."""
+"""Checker self-validation (thorough tier and development).
+
+Every variant is an in-memory edit of one source file of the *current* tree
+(nothing is written under /repo, nothing is executed): `fire` variants break
+one rule instance and must be reported by exactly the named rule; `silent`
+variants are behaviour-preserving rewrites and must not be reported at all.
+A variant whose `old` text no longer occurs in the file is skipped (counted).
+A wrong verdict is a SELFTEST-FAIL: the machinery is broken (exit 2), never a
+property violation.
+"""
+
+import concurrent.futures
+import importlib
+import os
+import sys
+
+sys.path.insert(0, os.path.dirname(os.path.dirname(os.path.abspath(__file__))))
+
+from sa import core
 
 
-def run_for(prop):
-  return None
+def load_variants(prop):
+  try:
+    mod = importlib.import_module('sa.variants.%s' % prop.lower())
+  except ImportError:
+    return []
+  return list(mod.VARIANTS)
+
+
+def _run_one(args):
+  prop, v, baseline = args
+  baseline = set(baseline)
+  from sa import check  # pylint: disable=g-import-not-at-top
+  path = os.path.join(core.REPO_DIR, v['file'])
+  try:
+    with open(path, encoding='utf-8') as f:
+      src = f.read()
+  except OSError:
+    return v['name'], 'skipped', 'file missing'
+  if src.count(v['old']) != 1:
+    return v['name'], 'skipped', 'anchor text occurs %d times' % src.count(v['old'])
+  new = src.replace(v['old'], v['new'])
+  try:
+    compile(new, v['file'], 'exec')
+  except SyntaxError as e:
+    return v['name'], 'error', 'variant does not compile: %s' % e
+  try:
+    _, rep = check.run_property(prop, 'quick', write=False,
+                                overrides={v['file']: new})
+    new_v = [x for x in rep.violations
+             if (x['rule'], x['key']) not in baseline]
+    rules = sorted(set(x['rule'] for x in new_v))
+  except core.AnalysisError as e:
+    if v['expect'] == 'fire' and v.get('rule') == 'ANALYSIS-ERROR':
+      return v['name'], 'ok', 'analysis error as expected'
+    return v['name'], 'error', 'ANALYSIS-ERROR on variant: %s' % e
+  if v['expect'] == 'silent':
+    if rules:
+      return v['name'], 'fail', 'behaviour-preserving twin reported by %s' % rules
+    return v['name'], 'ok', 'silent'
+  want = v['rule'] if isinstance(v['rule'], (list, tuple)) else [v['rule']]
+  if any(b[0] in want for b in baseline):
+    return v['name'], 'skipped', 'rule already violated on the current tree'
+  if not any(r in rules for r in want):
+    return v['name'], 'fail', 'expected %s, reported %s' % (want, rules)
+  return v['name'], 'ok', 'reported by %s' % rules
+
+
+def run_for(prop, jobs=None, baseline=()):
+  variants = load_variants(prop)
+  if not variants:
+    return {'variants': 0}
+  jobs = jobs or min(16, os.cpu_count() or 4)
+  results = []
+  with concurrent.futures.ProcessPoolExecutor(max_workers=jobs) as ex:
+    for r in ex.map(_run_one, [(prop, v, tuple(baseline)) for v in variants]):
+      results.append(r)
+  bad = [r for r in results if r[1] in ('fail', 'error')]
+  summary = {
+      'variants': len(variants),
+      'fired_as_expected': sum(
+          1 for v, r in zip(variants, results)
+          if v['expect'] == 'fire' and r[1] == 'ok'),
+      'silent_as_expected': sum(
+          1 for v, r in zip(variants, results)
+          if v['expect'] == 'silent' and r[1] == 'ok'),
+      'skipped': [r[0] for r in results if r[1] == 'skipped'],
+      'results': ['%s: %s (%s)' % r for r in results],
+  }
+  if bad:
+    for r in bad:
+      print('SELFTEST-FAIL property=%s variant=%s: %s' % (prop, r[0], r[2]))
+    raise core.AnalysisError('checker self-validation failed for %d variant(s)'
+                             % len(bad))
+  return summary
+
+
+if __name__ == '__main__':
+  import sys
+  import json
+  for p in sys.argv[1:]:
+    try:
+      print(json.dumps(run_for(p), indent=1))
+    except core.AnalysisError as e:
+      print('ANALYSIS-ERROR', e)
